@@ -1035,6 +1035,10 @@ class Program:
             self.renamed_fields = normalize.rename_private_fields(crates, table)
             self.inlined = normalize.inline_new_helpers(crates, table)
             self.inlined += [(c, [f]) for c, f in normalize.inline_local_closure_calls(crates, table)]
+            for d in crates:
+                for fd in d['fns']:
+                    if fd.get('inlined'):
+                        normalize.thread_bool_returns(fd)
         for d in crates:
             crate = d['crate']
             self.crates.append(crate)
